@@ -17,6 +17,7 @@ import (
 	"math/big"
 	"net"
 	"os"
+	"os/exec"
 	"path/filepath"
 	"reflect"
 	"runtime"
@@ -28,6 +29,7 @@ import (
 
 	hclog "github.com/hashicorp/go-hclog"
 	plugin "github.com/hashicorp/go-plugin"
+	"github.com/hashicorp/go-plugin/verifharness/vp"
 )
 
 type hsLine struct {
@@ -55,6 +57,9 @@ type hsCase struct {
 	Offers   string `json:"offers"`
 	// Long = 1: the fourth field is padded with spaces so that the first 64 KiB of the line are a line of their own
 	// (four fields); the rest of the line follows. LogBuf > 0: PluginLogBufferSize, with a Unix address longer than it.
+	// Real: the plugin is a real child process launched with Cmd (the stock command runner and its address
+	// translation are in the path), printing the line and then sleeping
+	Real   bool   `json:"real,omitempty"`
 	Long   int    `json:"long,omitempty"`
 	LogBuf int    `json:"log_buf,omitempty"`
 	Raw    string `json:"raw,omitempty"` // set by the driver: the concrete line
@@ -282,7 +287,14 @@ func runHandshakeCase(c hsCase, tmp string) (hsCase, hsOut) {
 		}
 		<-r.Gone()
 	})
-	cl := plugin.NewClient(hsClientConfig(c, sr, tmp))
+	ccfg := hsClientConfig(c, sr, tmp)
+	var realCmd *exec.Cmd
+	if c.Real {
+		realCmd = exec.Command("/bin/sh", "-c", `printf '%s' "$1"; exec sleep 30`, "sh", raw)
+		ccfg.RunnerFunc = nil
+		ccfg.Cmd = realCmd
+	}
+	cl := plugin.NewClient(ccfg)
 	var out hsOut
 	out.LimitMs = 3000 + 1500
 	var addr net.Addr
@@ -316,6 +328,12 @@ func runHandshakeCase(c hsCase, tmp string) (hsCase, hsOut) {
 		}
 	}
 	out.Killed = sr.Kills.Load() > 0
+	if c.Real && realCmd.Process != nil && err != nil {
+		for i := 0; i < 200 && !vp.PidGone(realCmd.Process.Pid); i++ {
+			time.Sleep(10 * time.Millisecond)
+		}
+		out.Killed = vp.PidGone(realCmd.Process.Pid)
+	}
 	out.Ok = err == nil && !out.Panic && !out.Hung
 	if err != nil {
 		out.Err = err.Error()
